@@ -177,6 +177,9 @@ def h_symmetry(env, opts, patt, n, which, canary=False):
     mapping, utd = opts.get("qubit_mapping", "jw"), opts.get("up_then_down", False)
     try:
         s = make_solver(env, opts)
+        # the ordering in which the CIRCUIT is written is the ansatz' (QCC / ILC with Jordan-Wigner switch to up-then-down whatever the
+        # caller asked for, and the solver is documented to follow): the determinants are decoded in that ordering
+        utd = bool(getattr(s.ansatz, "up_then_down", utd))
         if patt is None:
             patt = ("s" + "p" * s.ansatz.n_var_params)[:s.ansatz.n_var_params]
         th = vec(env, "th", patt)
@@ -540,6 +543,11 @@ def shapes(tier, seed):
             out.append(Shape(f"symmetry/{which}/H4f/{mp}/utd={int(utd)}", h_symmetry,
                              dict(opts=dict(molecule_key="H4f", qubit_mapping=mp, up_then_down=utd, ansatz=BuiltInAnsatze.UCCSD), patt=None, n=n, which=which),
                              modules=MODS, max_paths=64))
+    for an_, anm_ in ((BuiltInAnsatze.QCC, "qcc"), (BuiltInAnsatze.ILC, "ilc")):
+        for sp_ in ("jw", "JW", "Jw"):
+            for which in ("N", "Sz"):
+                out.append(Shape(f"symmetry/{which}/H2/{anm_}/mapping={sp_}/utd-default", h_symmetry,
+                                 dict(opts=dict(molecule_key="H2", qubit_mapping=sp_, ansatz=an_), patt=None, n=4, which=which), modules=MODS, max_paths=64))
     B = BuiltInAnsatze
     variety = [("ucc1", dict(molecule_key="H2", qubit_mapping="jw", up_then_down=True, ansatz=B.UCC1)),
                ("ucc3", dict(molecule_key="H2", qubit_mapping="jw", up_then_down=True, ansatz=B.UCC3)),
